@@ -12,11 +12,23 @@ def untag_default(d):
     return d[1]
 
 
-def build(m, **db_kwargs):
+def build(m, share_notes=False, **db_kwargs):
+    """share_notes: pass one and the same Note object for every equal note text (a caller may legitimately reuse a Note);
+    the classes must copy it, so the result must not differ from share_notes=False."""
     from pydbml import Database
     from pydbml.classes import (Column, Enum, EnumItem, Expression, Index, Note, Project, Reference,
                                 StickyNote, Table, TableGroup)
     kw = dict(db_kwargs)
+    _notes = {}
+
+    def N(text):
+        if not text:
+            return None
+        if not share_notes:
+            return text
+        if text not in _notes:
+            _notes[text] = Note(text)
+        return _notes[text]
     kw.setdefault('allow_properties', m.get('allow_properties', False))
     db = Database(**kw)
     enums = {}
@@ -27,7 +39,7 @@ def build(m, **db_kwargs):
         enums[(e['schema'], e['name'])] = eo
     tables = {}
     for t in m['tables']:
-        to = Table(t['name'], schema=t['schema'], alias=t['alias'], note=t['note'] or None,
+        to = Table(t['name'], schema=t['schema'], alias=t['alias'], note=N(t['note']),
                    header_color=t['header_color'], comment=t['comment'],
                    properties=dict(t['properties']) if t['properties'] else None)
         for c in t['columns']:
@@ -35,7 +47,7 @@ def build(m, **db_kwargs):
             tyo = enums[(ty[1], ty[2])] if ty[0] == 'enum' else ty[1]
             co = Column(c['name'], tyo, unique=c['unique'], not_null=c['not_null'], pk=c['pk'],
                         autoinc=c['autoinc'], default=untag_default(c['default']),
-                        note=c['note'] or None, comment=c['comment'],
+                        note=N(c['note']), comment=c['comment'],
                         properties=dict(c['properties']) if c['properties'] else None)
             to.add_column(co)
         for i in t['indexes']:
